@@ -22,6 +22,7 @@ def run(ctx: Ctx) -> list[Ob]:
     obs += r4r.operator_rule_shapes(ctx, {'MULTIPLICATION'})
     obs += l2.run(ctx)
     obs += r14.product_input_order(ctx)
+    obs += r14.edge_multiplicity(ctx)
     obs += r14.kronecker_sum_weight_layout(ctx)
     obs += extra.multiply_outputs(ctx)
     obs += r14.scope_keyed_inputs(ctx)
@@ -47,8 +48,9 @@ SPEC = PropSpec(
         " R7e (outputs of multiply): the output pairs are enumerated with sc1.outputs as the outer and sc2.outputs as the inner index ('output (i, j) is the product of output i of c1 and output j of c2'). R14h: no operator driver indexes the inputs of a layer by their scopes (several observed inputs of one product layer share the empty scope and would collide). R4a/R4l on the parameter operators the product rules build (outer product / outer sum / Kronecker / Gaussian product statistics / polynomial product): declared shape for every rank and dim, and units of operand 1 major (Kronecker order (i, j))."
         " R3k: every constructor hyper-parameter of a concrete symbolic layer (everything but its params and *_factory alternatives) is a key of its config and round-trips through it -- Layer.copyref(), the copy every operator makes of a layer it does not transform, rebuilds the layer from config (a constant layer that loses log_space is read as linear by the next operator)."
         " R14q: the weight of the product of two sum layers is laid out as the inputs of the product layer are: multiply enumerates the pairs of inputs first operand major (itertools.product over the two layers' inputs), each with units (i1, i2), i.e. column ((a1*H2 + a2)*K1 + i1)*K2 + i2, while the Kronecker product of the weights holds that entry at (a1*K1 + i1)*(H2*K2) + a2*K2 + i2; a rule building a sum layer of arity H1*H2 from the Kronecker product re-indexes the columns -- the index expression is compared with that polynomial, the nesting order of the comprehension with (H1, H2, K1, K2), and the re-indexing may be skipped only when K1 == 1 or H2 == 1 -- or refuses arities above one."
+        ' R14s: successor lists keep one entry per edge -- topological_ordering / layerwise_topological_ordering count predecessors with multiplicity and decrement once per listed successor, so graph_nodes_outgoings appends once per occurrence (no set, no membership guard) and every explicit outcomings_fn is a node_outputs method or a lookup in such a mapping, never a membership filter: c * c has operands (c, c), and a successor listed once while its predecessors are counted twice never becomes ready (the pipeline then reports a cycle instead of compiling the operand first).'
     ),
     not_decided="Gaussian product statistics, polynomial convolution, the numerical content of the parameter operators (C14).",
     run=run,
-    floors={"R14q": 4, "R3k": 25, "L2": 2, "R4r": 25, "R7i": 2, "R7p": 8, "R2a": 20, "R2c": 10, "R2f": 20, "R8": 2, "L1": 1},
+    floors={"R14s": 3, "R14q": 4, "R3k": 25, "L2": 2, "R4r": 25, "R7i": 2, "R7p": 8, "R2a": 20, "R2c": 10, "R2f": 20, "R8": 2, "L1": 1},
 )
